@@ -24,7 +24,7 @@ def struct_fields(src_dir):
         if not fn.endswith(".rs"):
             continue
         txt = open(os.path.join(src_dir, fn), encoding="utf-8", errors="replace").read()
-        for m in re.finditer(r"pub struct (\w+)(?:<[^>]*>)?\s*\{(.*?)\n\}", txt, re.S):
+        for m in re.finditer(r"pub struct (\w+)(?:<[^>]*>)?\s*(?:where[^{]*)?\{(.*?)\n\}", txt, re.S):
             fields = []
             for line in m.group(2).split("\n"):
                 line = line.strip()
